@@ -24,7 +24,7 @@ def cfg(name, w, maxv, spec, invs):
     os.makedirs(d, exist_ok=True)
     p = os.path.join(d, name)
     with open(p, "w") as f:
-        f.write(f"CONSTANTS\n  W = {w}\n  Caches = {{\"k1\", \"k2\"}}\n  Asns = {{0, 1, 2, 3}}\n  Origins = {{1, 2, 3, 99}}\n"
+        f.write(f"CONSTANTS\n  W = {w}\n  Caches = {{\"k1\", \"k2\"}}\n  Asns = {{0, 1, 2, 3}}\n  Origins = {{1, 2, 3, 5, 98, 99}}\n"
                 f"  MaxVrps = {maxv}\nSPECIFICATION Spec\nINVARIANTS {' '.join(invs)}\nCHECK_DEADLOCK FALSE\n")
     return p
 
@@ -80,7 +80,7 @@ def main(c):
     c.cov["exhaustive"] = True
     c.cov["parts"]["replay"] = summary
     c.cov["rule"] = (f"every VRP set of at most {maxv} VRPs over a {w}-bit space (2 caches, AS 0-3) x every route (all prefixes x "
-                     "origins AS1/AS2/local/AS_SET) x every embedding offset; non-trivial = some route is Valid or Invalid")
+                     "origins AS1/AS2/local/AS_SET tail/AS_SET tail after a sequence ending in AS1/AS_SET head before a sequence) x every embedding offset; non-trivial = some route is Valid or Invalid")
     c.sample({"vrps": states[len(states) // 2]["vrps"], "expected": "".join(states[len(states) // 2]["exp"])})
     import drvlib
     drvlib.rov_use(c, routes, states, w)
